@@ -869,10 +869,40 @@ def arguments_of_temporaries(fnode):
     return changed
 
 
+def unelse_after_exit(fnode):
+    """if c: ..; <return / raise / continue / break>  else: B     ->   if c: ..; <exit>   followed by B
+    One shape for `the other case`: an arm that leaves needs no else (elif chains are unfolded arm by arm)."""
+    changed = False
+
+    def block(stmts):
+        nonlocal changed
+        out = []
+        for st in stmts:
+            for fld in ("body", "orelse", "finalbody"):
+                v = getattr(st, fld, None)
+                if isinstance(v, list) and v and isinstance(v[0], ast.stmt) and not isinstance(st, (ast.FunctionDef, ast.AsyncFunctionDef, ast.ClassDef)):
+                    setattr(st, fld, block(v))
+            if isinstance(st, ast.Try):
+                for h in st.handlers:
+                    h.body = block(h.body)
+            if isinstance(st, ast.If) and st.orelse and st.body and isinstance(st.body[-1], (ast.Return, ast.Raise, ast.Continue, ast.Break)):
+                rest = st.orelse
+                st.orelse = []
+                out.append(st)
+                out += rest
+                changed = True
+            else:
+                out.append(st)
+        return out
+    fnode.body = block(fnode.body)
+    return changed
+
+
 def apply_synonyms(repo):
     n = 0
     for f in repo.funcs.values():
         before = ast.dump(f.node)
+        unelse_after_exit(f.node)
         arguments_of_temporaries(f.node)
         return_of_temporary(f.node)
         if f.name == "main":
